@@ -47,9 +47,16 @@ class NF:
         return NF(o - self.v)
 
     def __add__(self, o):
+        if type(o) is int and o == 0:      # x + 0 == x
+            return NF(self.v)
         return NF(self.v + self._o(o))
 
     __radd__ = __add__
+
+    def __truediv__(self, o):
+        if type(o) is int and o == 1:      # x / 1 == x exactly (floats and reals): keeps the solver's terms small
+            return NF(self.v)
+        return NF(self.v / self._o(o))
 
     def __float__(self):
         return self.v
@@ -207,6 +214,126 @@ def check_epochstop(epochs: int, n: int) -> bool:
             break
     want = epochs if epochs <= n else -1
     return first == want and (first < 0 or sc.best_model == ("model", first))
+
+
+# ---------------------------------------------------------------------------------------------------------------------------
+# The real training loop.  The source of `ml.train` is cut out of /repo's training.py (ast) on every run and compiled in a
+# namespace of stubs: get_batches -> one batch per epoch, train_step -> ("model", number of steps so far) and the next loss of
+# a symbolic history (an NF: the loop adds and divides jax scalars, never floats), map_loss_in_batches -> the next validation
+# loss, random.split / jax.devices / optimizer.init / eqx.filter / time / wandb / save -> inert.  The stopping conditions are
+# the real classes.  So CrossHair executes the loop's own control flow - when stop() is consulted, with which model and which
+# losses, what is handed back - for every loss history within the bounds.
+import ast as _ast
+import __future__ as _future
+
+
+class _Exhausted(Exception):
+    pass
+
+
+class _Inert:
+    def __getattr__(self, name):
+        return lambda *a, **k: None
+
+
+def _load_train(wrap):
+    path = os.path.join(_REPO, "src/ginjax/ml/training.py")
+    tree = _ast.parse(open(path).read())
+    fn = [n for n in tree.body if isinstance(n, _ast.FunctionDef) and n.name == "train"][0]
+    code = compile(_ast.Module(body=[fn], type_ignores=[]), path, "exec", flags=_future.annotations.compiler_flag, dont_inherit=True)
+    mod = _mod(wrap)
+    ns = {"ValLoss": mod.ValLoss, "TrainLoss": mod.TrainLoss, "EpochStop": mod.EpochStop, "StopCondition": mod.StopCondition}
+    exec(code, ns)
+    return ns
+
+
+def _run_train(kind, losses, patience, min_delta, nb=1, conv=None, wrap=True):
+    """-> (epochs run or -1 if the history ran out before the loop stopped, returned model, returned train loss, returned val loss)"""
+    conv = conv or NF
+    ns = _load_train(wrap)
+    state = {"steps": 0, "epochs": 0}
+
+    def get_batches(mi, batch_size, key, devices):
+        if state["epochs"] >= len(losses):
+            raise _Exhausted()
+        return [("xb", j) for j in range(nb)], [("yb", j) for j in range(nb)]
+
+    def train_step(map_and_loss, model, optimizer, opt_state, xb, yb, aux):
+        state["steps"] += 1
+        l = losses[state["epochs"]] if kind == "train" else 50.0
+        if state["steps"] % nb == 0:
+            state["epochs"] += 1
+        return ("model", state["steps"]), opt_state, conv(l), aux
+
+    def map_loss_in_batches(map_and_loss, model, vx, vy, batch_size, key, devices=None, aux_data=None):
+        return conv(losses[state["epochs"] - 1]) if kind == "val" else conv(50.0)
+
+    class _Random:
+        @staticmethod
+        def split(key, n=2):
+            return key, key
+
+    class _Jax(_Inert):
+        @staticmethod
+        def devices():
+            return ["cpu0"]
+
+    class _Eqx(_Inert):
+        @staticmethod
+        def filter(m, pred, *a, **k):
+            return m
+    ns.update(get_batches=get_batches, train_step=train_step, map_loss_in_batches=map_loss_in_batches, random=_Random, jax=_Jax(), eqx=_Eqx(),
+              time=type("T", (), {"time": staticmethod(lambda: 0.0)}), wandb=_Inert(), save=lambda *a, **k: None)
+    cls = ns["TrainLoss"] if kind == "train" else ns["ValLoss"]
+    sc = cls(patience=patience, min_delta=min_delta)
+    val = kind == "val"
+    try:
+        out_model, _, el, vl = ns["train"]("X", "Y", None, ("model", 0), 0, sc, 2, _Inert(), "VX" if val else None, "VY" if val else None)
+    except _Exhausted:
+        return -1, None, None, None
+    return state["epochs"], out_model, el, vl
+
+
+def _train_spec(kind, losses, patience, min_delta, nb=1, conv=None, wrap=True):
+    ran, out_model, el, vl = _run_train(kind, losses, patience, min_delta, nb, conv, wrap)
+    efirst, _ = ref_run(losses, patience, min_delta)
+    if efirst < 0:
+        return ran == -1          # a history that keeps the condition open: the loop must still be running when it ends
+    ebest = ref_run(losses[: efirst + 1], patience, min_delta)[1]
+    return ran == efirst + 1 and out_model == ("model", (ebest + 1) * nb)
+
+
+def check_train_loop_trainloss(losses: List[float], patience: int, min_delta: float) -> bool:
+    """
+    The real ml.train with TrainLoss: runs exactly up to the specified stopping epoch and returns the model of the best epoch.
+    pre: 0 <= patience <= 2 and 0 <= min_delta <= 8
+    pre: 1 <= len(losses) <= MAXLEN
+    pre: all(0 <= l <= 100 for l in losses)
+    post: _
+    """
+    return _train_spec("train", losses, patience, min_delta)
+
+
+def check_train_loop_valloss(losses: List[float], patience: int, min_delta: float) -> bool:
+    """
+    The real ml.train with ValLoss and validation data.
+    pre: 0 <= patience <= 2 and 0 <= min_delta <= 8
+    pre: 1 <= len(losses) <= MAXLEN
+    pre: all(0 <= l <= 100 for l in losses)
+    post: _
+    """
+    return _train_spec("val", losses, patience, min_delta)
+
+
+def canary_train_loop(losses: List[float]) -> bool:
+    """
+    Deliberately wrong specification (ml.train returns the LAST model): must be refuted.
+    pre: 2 <= len(losses) <= 3
+    pre: all(0 <= l <= 100 for l in losses)
+    post: _
+    """
+    ran, out_model, el, vl = _run_train("train", losses, 0, 0.0)
+    return ran == -1 or out_model == ("model", ran)
 
 
 def canary_patience(losses: List[float], patience: int) -> bool:
